@@ -88,7 +88,10 @@ def run(check):
                   "ancestor chain between the working directory and the typeshare.toml that is to be found (`.git` directory / file, "
                   "Cargo.toml, .hg, .typeshare, typeshare.toml as a directory, look-alike names, an empty typeshare.toml closer by, "
                   "$HOME) x 1-6 levels x kind of working directory (plain, through symbolic links, `.` / `..` components) x where the "
-                  "input lies x language x settings x option: the nearest regular typeshare.toml decides, alone; non-trivial = at "
+                  "input lies x language x settings x option: the nearest regular typeshare.toml decides, alone; the options of the *other* languages added to the command line (each alone, "
+                  "all together, before / after the language's own option, `--opt v` / `--opt=v` / `-x v` / `-xv` / `-x=v`, empty values) x "
+                  "language x {own option absent, present} x {key absent, present} x {-c, ancestor search}, the refused cells (Go / Scala "
+                  "without a package) included: same exit status and same bytes as the run without them; non-trivial = at "
                   "least one of option / key is present")
     cases = []
     for name, flag, (sec, key), idx, lang in OPTS:
@@ -203,6 +206,8 @@ def run(check):
         generate_onto_object_part(check)
     if not check.has_failing():
         ancestor_chain_part(check)
+    if not check.has_failing():
+        foreign_options_part(check)
     check.exhaustive = True
     check.extra["exhaustive_scope"] = "7 settings x {option absent, present} x {key absent, present} x {-c, ancestor search}"
     check.assumptions += ["TOML (de)serialisation by the `toml` crate and option parsing by `clap` are external; they are exercised through the real binary",
@@ -1139,6 +1144,259 @@ def chain_judge(check, sc, L, pl, ma):
         check.violation("model: effective settings %s for the nearest file's %s and options %s, the precedence rule gives %s"
                         % (ma, pl["file7"], pl["cli7"], want7), case=case, model=ma, failing_input=False,
                         broken="TsV.Props.C20: effective settings of the model differ from option-else-file-else-default")
+    return False
+
+
+
+# ----------------------------------------------------------------------------- options that belong to other languages
+
+SHORT = {"--swift-prefix": "-s", "--kotlin-prefix": "-k", "--java-package": "-j", "--module-name": "-m"}
+
+
+def spell_option(rng, flag, value, form=None):
+    """one option in one of the spellings clap accepts: `--opt v`, `--opt=v`, and for the options that have a short form
+    `-x v`, `-x=v`, `-xv` (the last only for a non-empty value).  Returns (form, arguments)"""
+    forms = ["--opt v", "--opt=v"]
+    if flag in SHORT:
+        forms += ["-x v", "-x=v"] + (["-xv"] if value else [])
+    if form not in forms:
+        form = rng.choice(forms)
+    x = SHORT.get(flag)
+    return form, {"--opt v": [flag, value], "--opt=v": [flag + "=" + value], "-x v": [x, value], "-x=v": ["%s=%s" % (x, value)],
+                  "-xv": ["%s%s" % (x, value)]}[form]
+
+
+def foreign_options_part(check):
+    """Dimension: *options that belong to other languages* on the command line (a wrapper script that passes every language's
+    options on each call).  C20's matrix gives each language only its own option; here, for every language L (TypeScript and
+    Python, which have no option of their own, included) and every cell of {L's own options absent, present} x {L's keys absent,
+    present in the file - no file at all, or a file with other languages' keys only} x {-c, ancestor search}, the command is
+    run once without and then with the options of the other languages: each alone, all together, before L's own options / after
+    them / around them (also before `--lang`), spelled `--opt v`, `--opt=v`, `-x v`, `-x=v`, `-xv`, with ordinary and with empty
+    values.  The cells in which the run must be *refused* (Go and Scala without a package from the option or the file) are part of
+    the matrix.
+    Demanded: a setting of L comes from L's option, else L's key, else the default - an option of another language is neither.
+    So (1) exit status and output bytes equal those of the run without the foreign options (a refused run stays refused);
+    (2) judged on the output alone: prefix / package shown are what the precedence rule gives from L's own option and key, and
+    no value of a foreign option shows anywhere in the output; (3) the model's `config` request, given all the options, yields
+    option-else-file-else-default for every setting.  When several foreign options were given, the report names one that does
+    it alone."""
+    rng = check.rng
+    pending = []                        # (request, want7, refuse, case) for the model, asked once at the end
+    for rep in range(2 if check.thorough else 1):
+        for L in LANGS:
+            own = [o for o in OPTS if o[2][0] == L]
+            foreign = [o for o in OPTS if o[2][0] != L]
+            for own_given, key_present, discover in itertools.product([False, True] if own else [False], [False, True], ["-c", "ancestor"]):
+                if foreign_options_cell(check, rng, L, own, foreign, own_given, key_present, discover, pending):
+                    return
+    answers = model([p[0] for p in pending], with_unicode=False)
+    for (req, want7, refuse, case), ma in zip(pending, answers):
+        if ("err" in ma) != refuse or ("ok" in ma and ma["ok"] != want7):
+            check.violation("model: effective settings %s for file %s and options %s (options of other languages among them), the "
+                            "precedence rule gives %s" % (ma, req[1], req[2], "a refusal (no Go package)" if refuse else want7),
+                            case=case, model=ma, failing_input=False,
+                            broken="TsV.Props.C20: effective settings of the model differ from option-else-file-else-default")
+            return
+
+
+def foreign_options_cell(check, rng, L, own, foreign, own_given, key_present, discover, pending):
+    """one cell: the run without foreign options, judged by the precedence rule, then the runs with them; True when a violation
+    with a failing input was reported"""
+    ext = EXT[L]
+    n = rng.randint(100, 899)
+
+    def own_value(name, src):
+        if "package" not in name:
+            return "%s%d" % (src.title(), n)
+        return "%spk%d" % (src, n) if name == "go-package" else "%s.%s%d.pk" % ("com" if src == "cli" else "org", src, n)
+
+    # L's own options and keys; an own value may also be the empty string (present, but empty)
+    cli7, file7, own_args, own_forms = [None] * 7, [""] * 7, [], []
+    shared = {}
+    for name, flag, (sec, key), idx, _ in own:
+        if own_given:
+            cli7[idx] = "" if rng.random() < 0.12 else own_value(name, "cli")
+            form, a = spell_option(rng, flag, cli7[idx])
+            own_args += a
+            own_forms.append(form)
+        if key_present:
+            file7[idx] = "" if rng.random() < 0.12 else own_value(name, "file")
+            shared[(sec, key)] = file7[idx]
+    # keys of the other languages in the file: they are not L's either
+    have_file = key_present or rng.random() < 0.6
+    for j, (name, flag, (sec, key), idx, _) in enumerate(foreign):
+        if have_file and rng.random() < 0.5:
+            file7[idx] = ("Other%d" % (n + j + 1)) if "package" not in name else "othergo%d" % (n + j + 1) if name == "go-package" else "io.other%d.pk" % (n + j + 1)
+            shared[(sec, key)] = file7[idx]
+    text = toml_text(shared, {"typescript": {"type_mappings": {"Url": "string"}}}) if have_file else None
+    # the foreign options: every value carries a token of its own (zz<number>) that must never show in L's output
+    fvals = {}
+    for j, (name, flag, (sec, key), idx, _) in enumerate(foreign):
+        tok = "zz%d" % (n + 10 * (j + 1))
+        fvals[flag] = (tok, "Zz%dP" % (n + 10 * (j + 1)) if "package" not in name else tok + "go" if name == "go-package" else "net.%s.fpk" % tok, idx)
+
+    want7 = [c if c is not None else f for c, f in zip(cli7, file7)]
+    refuse_go = L == "go" and want7[6] == ""
+    no_scala_package = L == "scala" and want7[4] == ""
+
+    with Scratch() as sc:
+        sc.write("ws/proj/src/lib.rs", SRC)
+        cwd = sc.path("ws/proj")
+        cfg = []
+        if have_file and discover == "-c":
+            sc.write("cfg/explicit.toml", text)
+            cfg = ["-c", sc.path("cfg/explicit.toml")]
+        elif have_file:
+            sc.write("ws/typeshare.toml", text)
+        runs = [0]
+
+        def one(pre, mid1, mid2, post):
+            runs[0] += 1
+            out = sc.path("out/%d.%s" % (runs[0], ext))
+            os.makedirs(os.path.dirname(out), exist_ok=True)
+            args = pre + ["--lang", L] + mid1 + own_args + mid2 + ["-o", out] + cfg + post + ["src"]
+            r = run_cli(args, cwd=cwd, timeout=60)
+            r["output"] = open(out, encoding="utf-8").read() if os.path.exists(out) else None
+            r["command"] = "typeshare " + " ".join((a.replace(sc.dir, "<dir>") if a else "''") for a in args)
+            return r
+
+        def judge(r, given):
+            """the property on what this run wrote: precedence among L's own option and key; nothing of the foreign options"""
+            problems = []
+            if r["timed_out"]:
+                return ["the run does not end"]
+            if refuse_go:
+                if r["rc"] == 0:
+                    problems.append("the run succeeds although no Go package is configured (neither --go-package nor [go] package)")
+            elif r["rc"] != 0:
+                if not no_scala_package:   # Scala without any package name cannot generate at all (a C07 matter)
+                    problems.append("exit status %s: %s" % (r["rc"], last_words(r["err"])))
+            if r["rc"] == 0 and r["output"] is not None:
+                obs = observe(L, r["output"])
+                for name, flag, (sec, key), idx, lang in own:
+                    k = name if name != "scala-package" else "scala-package-parent"
+                    w = want7[idx] if name != "scala-package" else (want7[idx].rsplit(".", 1)[0] if "." in want7[idx] else "")
+                    if lang == L and k in obs and obs[k] != w:
+                        problems.append("the generated %s code shows %s = %r; the precedence rule gives %r (%s: %s, [%s] %s: %s)"
+                                        % (L, k, obs[k], w, flag, "absent" if cli7[idx] is None else repr(cli7[idx]), sec, key,
+                                           repr(file7[idx]) if (sec, key) in shared else "absent"))
+                for flag in given:
+                    if fvals[flag][0] in r["output"].lower():
+                        line = [l for l in r["output"].split("\n") if fvals[flag][0] in l.lower()][0]
+                        problems.append("the value of %s, an option of another language, shows in the %s output: %r" % (flag, L, line))
+            return problems
+
+        base = one([], [], [], [])
+        check.saw(("foreign-options-base", L, own_given, key_present, discover, have_file), nontrivial=own_given or key_present)
+        check.count("foreign-options cell: %s own option %s, own key %s" % (L, "given" if own_given else "absent", "present" if key_present else "absent"))
+        if base["rc"] != 0:
+            check.count("foreign-options: cells in which the run without foreign options is refused (%s)" % L)
+        base_case = {"lang": L, "own_options": own_args, "toml": text, "config_found_by": discover if have_file else "no configuration file",
+                     "working_directory": "<dir>/ws/proj", "source (src/lib.rs)": SRC}
+        problems = judge(base, [])
+        if problems:
+            check.violation("%s, no foreign options (own options %s, %s): %s" % (L, own_args or "none", "file found by " + discover if have_file else "no file",
+                                                                                "; ".join(problems[:3])),
+                            case=dict(base_case, command=base["command"]), impl={"rc": base["rc"], "stderr": base["err"][-500:], "output": (base["output"] or "")[-1500:]},
+                            failing_input=True)
+            return True
+
+        # the variants: which foreign options, where, how spelled
+        def groups(opts, empty=False, form=None):
+            g = []
+            for (name, flag, _, idx, _) in opts:
+                v = "" if empty else fvals[flag][1]
+                f, a = spell_option(rng, flag, v, form)
+                g.append((flag, f, v, a))
+            rng.shuffle(g)
+            return g
+
+        plans = [("all together", rng.choice(["before", "after", "around"]), groups(foreign))]
+        singles = list(foreign)
+        rng.shuffle(singles)
+        if check.thorough:
+            plans = [("all together", pos, groups(foreign)) for pos in ("before", "after", "around")]
+            plans += [("all together, every one `--opt=v`", "around", groups(foreign, form="--opt=v")),
+                      ("all together, short forms where they exist", "around", groups(foreign, form=rng.choice(["-x v", "-x=v", "-xv"]))),
+                      ("all together with empty values", rng.choice(["before", "after", "around"]), groups(foreign, empty=True))]
+            plans += [("alone", rng.choice(["before", "after"]), groups([o])) for o in singles]
+        else:
+            plans += [("alone", rng.choice(["before", "after"]), groups([singles[0]], empty=rng.random() < 0.2))]
+            if len(singles) > 1 and rng.random() < 0.5:
+                plans += [("two of them", rng.choice(["before", "after", "around"]), groups(singles[1:3]))]
+
+        def place(pos, g):
+            slots = {"before": [0, 1], "after": [2, 3], "around": [0, 1, 2, 3]}[pos]
+            four = [[], [], [], []]
+            for flag, f, v, a in g:
+                four[rng.choice(slots)] += a
+            return four
+
+        def differs(r):
+            if r["timed_out"]:
+                return "the run does not end"
+            if r["rc"] != base["rc"]:
+                if r["rc"] == 0:
+                    pk = [l for l in (r["output"] or "").split("\n") if l.startswith("package ")][:2]
+                    return ("exit status 0 where the run without them is refused (exit status %s: %s)%s"
+                            % (base["rc"], last_words(base["err"].split("\n\nStack backtrace")[0]), "; it generated %s" % pk if pk else ""))
+                return "exit status %s (%s) where the run without them has %s" % (r["rc"], last_words(r["err"].split("\n\nStack backtrace")[0]), base["rc"])
+            if r["output"] != base["output"]:
+                if r["output"] is None or base["output"] is None:
+                    return "an output file %s where the run without them %s" % ("is missing" if r["output"] is None else "is written", "writes one" if r["output"] is None else "writes none")
+                return "the output differs from that of the run without them: " + first_difference(base["output"], r["output"], "without", "with   ")
+            return None
+
+        for label, pos, g in plans:
+            r = one(*place(pos, g))
+            given = [x[0] for x in g]
+            for flag, f, v, a in g:
+                check.count("foreign-options spelling: %s%s" % (f, "" if v else " (empty value)"))
+                check.count("foreign-options: %s given to %s" % (flag, L))
+            check.count("foreign-options variant: %s, %s %s" % (label.split(",")[0], pos, "the own options" if own_given else "(no own option)"))
+            check.count("foreign-options runs")
+            check.saw(("foreign-options", L, own_given, key_present, discover, have_file, label, pos, tuple((x[0], x[1], bool(x[2])) for x in g)),
+                      nontrivial=True)
+            d = differs(r)
+            problems = ([d] if d else []) + judge(r, given)
+            if not problems:
+                continue
+            # which of them does it alone?
+            culprit = None
+            if len(g) > 1:
+                for x in g:
+                    r1 = one(*place(pos, [x]))
+                    d1 = differs(r1)
+                    p1 = ([d1] if d1 else []) + judge(r1, [x[0]])
+                    if p1:
+                        culprit, r, problems, given = x, r1, p1, [x[0]]
+                        break
+            cell = "%s %s, [%s] key%s %s, %s" % (
+                "own option%s" % ("s" if len(own) > 1 else "") if own else "no option of its own;",
+                ("given (%s)" % " ".join(a or "''" for a in own_args) if own_given else "absent") if own else "",
+                L, "s" if len(own) > 1 else "", "present" if key_present else "absent",
+                ("configuration %s" % ("given with -c" if discover == "-c" else "found by the ancestor search")) if have_file else "no configuration file")
+            check.violation("--lang %s with options of other languages on the command line (%s%s; cell: %s): adding them must change nothing, but: %s"
+                            % (L, " ".join(a or "''" for x in ([culprit] if culprit else g) for a in x[3]),
+                               " - found with all of %s given, this one does it alone" % [x[0] for x in g] if culprit else "",
+                               cell, "; ".join(problems[:3])),
+                            case=dict(base_case, foreign_options=[a for x in ([culprit] if culprit else g) for a in x[3]], command=r["command"],
+                                      command_without_them=base["command"],
+                                      replay="in an empty directory: src/lib.rs = `source`; %s; run `command` and `command_without_them` "
+                                             "in ws/proj (src = ws/proj/src) and compare exit status and output"
+                                             % ("no typeshare.toml anywhere" if not have_file else "write `toml` to %s" % ("cfg/explicit.toml" if discover == "-c" else "ws/typeshare.toml"))),
+                            impl={"rc": r["rc"], "stderr": r["err"].split("\n\nStack backtrace")[0][-600:], "output": (r["output"] or "")[-1500:],
+                                  "run_without_them": {"rc": base["rc"], "stderr": base["err"].split("\n\nStack backtrace")[0][-400:], "output": (base["output"] or "")[-1500:]}},
+                            failing_input=True)
+            return True
+        # the model, asked with every option at once
+        allcli = list(cli7)
+        for flag, (tok, v, idx) in fvals.items():
+            allcli[idx] = v
+        mwant = [c if c is not None else f for c, f in zip(allcli, file7)]
+        pending.append(([S("config"), list(file7) if have_file else None, allcli, L == "go"], mwant, L == "go" and mwant[6] == "",
+                        dict(base_case, all_options=allcli)))
     return False
 
 
